@@ -38,7 +38,7 @@ CRYSTALS = {
 
 def units(tier):
     u = []
-    meshes = {"cubic": [(2, 2, 2), (3, 3, 3)], "tetra_c": [(2, 2, 3), (4, 4, 2)], "tetra_a": [(4, 2, 4), (3, 2, 2), (3, 5, 3)], "ortho": [(2, 3, 4)],
+    meshes = {"cubic": [(2, 2, 2), (3, 3, 3)], "tetra_c": [(2, 2, 3), (4, 4, 2)], "tetra_a": [(4, 2, 4), (3, 2, 2), (3, 5, 3), (2, 4, 4)], "ortho": [(2, 3, 4)],
               "hex": [(3, 3, 2), (4, 4, 1)], "mono": [(2, 3, 2)], "tric": [(2, 2, 3)]}
     for c, ms in meshes.items():
         for m in ms:
@@ -224,7 +224,7 @@ def run_unit(u):
     cell, rots, recs = crystal(cid)
     rec_lat = np.linalg.inv(cell.cell)
     if kind == "fixed":
-        for shift in (None, [0.5, 0.5, 0.5], [0.5, 0, 0], [0, 0.5, 0.5]):
+        for shift in (None, [0.5, 0.5, 0.5], [0.5, 0, 0], [0, 0.5, 0.5], [0, 0, 0.5], [0, 0.5, 0], [0.5, 0.5, 0]):
             gp = gpm.GridPoints(np.array(mesh), rec_lat, q_mesh_shift=shift, is_gamma_center=gc, is_time_reversal=tr, fit_in_BZ=False, rotations=rots)
             sreq = [z3.RealVal(Fraction(float(x))) for x in (shift or [0, 0, 0])]
             u2 = u + (tuple(shift or [0, 0, 0]),)
